@@ -299,8 +299,15 @@ class Dimension:
         symbol: Optional[str] = None,
     ) -> "Dimension":
         key = exponents
-        if key in cls._known:
-            return cls._known[key]
+        existing = cls._known.get(key)
+
+        # a name belongs to one dimension; check before anything is interned so
+        # that a refused declaration changes nothing
+        if name and cls._by_name.get(name, existing) is not existing:
+            raise ValueError(f"A dimension named {name} is already defined")
+
+        if existing is not None:
+            return existing
 
         self = super().__new__(cls)
         self._initialized = False
@@ -314,6 +321,13 @@ class Dimension:
         symbol: Optional[str] = None,
     ) -> None:
         if self._initialized:
+            # a dimension first produced anonymously (by arithmetic) takes the name
+            # and symbol it is declared with later
+            if name and not self.name:
+                self.name = name
+                self._by_name[name] = self
+            if symbol and not self.symbol:
+                self.symbol = symbol
             return
 
         self.exponents = exponents
@@ -378,6 +392,9 @@ class Dimension:
         cls, dimension: "Dimension", name: str, symbol: Optional[str] = None
     ) -> "Dimension":
         """Registers a new named dimension derived from other dimension"""
+        if cls._by_name.get(name, dimension) is not dimension:
+            raise ValueError(f"A dimension named {name} is already defined")
+
         dimension.name = name
         dimension.symbol = symbol or str(dimension)
         cls._by_name[name] = dimension
